@@ -35,6 +35,19 @@ Fixpoint is_prefix (a b : list nat) : bool :=
   | _ :: _, [] => false
   end.
 
+(** the same, checked along an observed list of program counters without building the whole path (a frame whose code is
+    60000 zero bytes has a path of 60000 entries, the frame itself one step): every entry but the last is an instruction
+    inside the code that is no jump, and the next entry is where it leads *)
+Fixpoint follows (code : bytes) (t : list nat) : bool :=
+  match t with
+  | [] => true
+  | p :: rest =>
+    match rest with
+    | [] => true
+    | q :: _ => (p <? length code) && negb (is_jump_op (op_at code p)) && (q =? next_pc code p) && follows code rest
+    end
+  end.
+
 Section Loop.
   Variable St : Type.                       (* everything but the program counter *)
   Variable code : bytes.
